@@ -164,45 +164,155 @@ func (x *Exec) resolve(i Iface) Iface {
 }
 
 // ---- models ----
+// parseModel reads the answer of (get-value (t1 t2 ...)): a list of
+// (term value) pairs, where both sides are arbitrary s-expressions.
 func parseModel(m string) map[string]string {
 	res := map[string]string{}
-	i := 0
 	n := len(m)
-	if n == 0 {
+	i := 0
+	skip := func() {
+		for i < n && (m[i] == ' ' || m[i] == '\n' || m[i] == '\r' || m[i] == '\t') {
+			i++
+		}
+	}
+	sexpr := func() string {
+		skip()
+		st := i
+		if i < n && m[i] == '(' {
+			d := 0
+			for i < n {
+				if m[i] == '(' {
+					d++
+				} else if m[i] == ')' {
+					d--
+					if d == 0 {
+						i++
+						break
+					}
+				}
+				i++
+			}
+			return m[st:i]
+		}
+		for i < n && m[i] != ' ' && m[i] != '\n' && m[i] != ')' && m[i] != '(' {
+			i++
+		}
+		return m[st:i]
+	}
+	skip()
+	if i >= n || m[i] != '(' {
 		return res
 	}
 	i++
-	for i < n {
-		for i < n && (m[i] == ' ' || m[i] == '\n' || m[i] == '\r') {
-			i++
-		}
+	for {
+		skip()
 		if i >= n || m[i] != '(' {
 			break
 		}
 		i++
-		j := i
-		for m[j] != ' ' && m[j] != '\n' {
-			j++
+		k := sexpr()
+		v := sexpr()
+		skip()
+		if i < n && m[i] == ')' {
+			i++
 		}
-		name := m[i:j]
-		j++
-		k := j
-		depth := 0
-		for {
-			if m[k] == '(' {
-				depth++
-			} else if m[k] == ')' {
-				if depth == 0 {
-					break
-				}
-				depth--
-			}
-			k++
-		}
-		res[name] = strings.TrimSpace(m[j:k])
-		i = k + 1
+		res[normTerm(k)] = strings.TrimSpace(v)
 	}
 	return res
+}
+
+func normTerm(t string) string { return strings.Join(strings.Fields(t), " ") }
+
+// collectTerms gathers the SMT terms occurring in a value.
+func (x *Exec) collectTerms(v Val, acc map[string]bool, depth int) {
+	if depth > 12 {
+		return
+	}
+	switch vv := v.(type) {
+	case Int:
+		if vv.T != "" {
+			acc[vv.T] = true
+		}
+	case Bool:
+		if vv.T != "" {
+			acc[vv.T] = true
+		}
+	case Flt:
+		if vv.T != "" {
+			acc[vv.T] = true
+		}
+	case Str:
+		for _, b := range vv.B {
+			if b.T != "" {
+				acc[b.T] = true
+			}
+		}
+	case Iface:
+		if vv.L != nil {
+			if vv.L.done {
+				x.collectTerms(vv.L.val, acc, depth+1)
+			}
+			return
+		}
+		x.collectTerms(vv.V, acc, depth+1)
+	case Slice:
+		for _, e := range x.sliceElems(vv) {
+			x.collectTerms(e, acc, depth+1)
+		}
+	case *Map:
+		if vv != nil {
+			for i := range vv.Keys {
+				x.collectTerms(vv.Keys[i], acc, depth+1)
+				x.collectTerms(vv.Vals[i], acc, depth+1)
+			}
+		}
+	case Struct:
+		for _, f := range vv.F {
+			x.collectTerms(f, acc, depth+1)
+		}
+	case Array:
+		for _, e := range vv.E {
+			x.collectTerms(e, acc, depth+1)
+		}
+	case Ptr:
+		if vv.Base != nil {
+			x.collectTerms(x.loadPath(vv.Base.V, vv.Path), acc, depth+1)
+		}
+	case Tuple:
+		for _, e := range vv {
+			x.collectTerms(e, acc, depth+1)
+		}
+	}
+}
+
+// modelOf asks the solver (which must just have answered sat) for the values
+// of every term occurring in the tape and in the given extra values.
+func (x *Exec) modelOf(extra []Val) map[string]string {
+	acc := map[string]bool{}
+	for _, e := range x.tape {
+		x.collectTerms(e.V, acc, 0)
+	}
+	for _, v := range extra {
+		x.collectTerms(v, acc, 0)
+	}
+	if len(acc) == 0 {
+		return map[string]string{}
+	}
+	terms := make([]string, 0, len(acc))
+	for t := range acc {
+		terms = append(terms, t)
+	}
+	sort.Strings(terms)
+	m := parseModel(x.sol.getValues(terms))
+	return m
+}
+
+func lookupModel(m map[string]string, t string) (string, bool) {
+	v, ok := m[t]
+	if !ok {
+		v, ok = m[normTerm(t)]
+	}
+	return v, ok
 }
 
 func modelBV(v string) uint64 {
@@ -250,7 +360,7 @@ func (x *Exec) mInt(i Int, m map[string]string) uint64 {
 	if c, ok := x.known[i.T]; ok {
 		return c & mask(i.W)
 	}
-	if v, ok := m[i.T]; ok {
+	if v, ok := lookupModel(m, i.T); ok {
 		return modelBV(v) & mask(i.W)
 	}
 	return 0
@@ -259,13 +369,15 @@ func (x *Exec) mBool(b Bool, m map[string]string) bool {
 	if b.T == "" {
 		return b.C
 	}
-	return m[b.T] == "true"
+	v, _ := lookupModel(m, b.T)
+	return v == "true"
 }
 func (x *Exec) mFloat(f Flt, m map[string]string) float64 {
 	if f.T == "" {
 		return f.C
 	}
-	return modelFloat(m[f.T])
+	v, _ := lookupModel(m, f.T)
+	return modelFloat(v)
 }
 func (x *Exec) mStr(s Str, m map[string]string) string {
 	bs := make([]byte, len(s.B))
